@@ -4,6 +4,9 @@
 EXTENDS Agg, Json
 
 CONSTANTS ValSet, ValSet2
+\* a signed alphabet for cfg files (which cannot hold negative literals)
+SignedSet == {0 - 1, 0, 2}
+SignedSet3 == {0 - 2, 0, 1, 3}
 ElemDef  == ValSet \cup {NULL}
 Elem2Def == ValSet2 \cup {NULL}
 
